@@ -1,21 +1,15 @@
 import PynnVerif.Model.Heap
+import PynnVerif.Driver.Util
 /-!
 # Line-protocol driver over the executable model
 
 One command per input line, one output line per command.  Integers are decimal;
 float32 priorities travel as their bit patterns (`UInt32`, decimal), so `inf`,
-`-0.0` and ties behave exactly as in the numba kernels.  Imports `Model/` only
-(no Mathlib), so it links as a native executable.
+`-0.0` and ties behave exactly as in the numba kernels.  Imports `Model/` and
+`Driver/` only (no Mathlib), so it links as a native executable.  Area-specific
+commands are stateless handlers registered in `handlers`.
 -/
-open Pynn
-
-abbrev F := Float32
-def finf : F := Float32.ofBits 0x7f800000
-
-def pInt (s : String) : Int := s.toInt?.getD 0
-def pNat (s : String) : Nat := s.toNat?.getD 0
-def pF (s : String) : F := Float32.ofBits (UInt32.ofNat (pNat s))
-def showF (x : F) : String := toString x.toBits.toNat
+open Pynn Pynn.Drv
 
 def showRow (r : Row F) : String :=
   " ".intercalate (r.toList.map (fun e => showF e.prio)) ++ " ; " ++
@@ -25,21 +19,22 @@ def showRow (r : Row F) : String :=
 structure St where
   row : Row F := #[]
 
-def allParse (toks : List String) : Bool :=
-  toks.all (fun t => t.toInt?.isSome)
+/-- stateless area handlers (first one that answers wins) -/
+def handlers : List Handler := []
 
 def step (st : St) (line : String) : St × String :=
-  match (line.trimAscii.toString.splitOn " ").filter (· ≠ "") with
+  let toks := (line.trimAscii.toString.splitOn " ").filter (· ≠ "")
+  match toks with
   | "hnew" :: [k] => ({ st with row := mkRow finf (pNat k) }, "ok")
   | "hset" :: k :: rest =>
     let k := pNat k
-    if rest.length ≠ 3 * k || !allParse rest then (st, "bad-op") else
+    if rest.length ≠ 3 * k || !allInts rest then (st, "bad-op") else
     let ps := rest.take k; let is := (rest.drop k).take k; let fs := rest.drop (2*k)
     let row : Row F := ((ps.zip is).zip fs).toArray.map
       (fun ((p, i), f) => ⟨pF p, pInt i, pInt f != 0⟩)
     ({ st with row := row }, "ok")
   | ["hpush", v, p, n, f] =>
-    if !allParse [p, n, f] then (st, "bad-op") else
+    if !allInts [p, n, f] then (st, "bad-op") else
     let (r, acc) := match v with
       | "s" => pushSimple st.row (pF p) (pInt n)
       | "c" => pushChecked st.row (pF p) (pInt n)
@@ -49,7 +44,10 @@ def step (st : St) (line : String) : St × String :=
     let r := deheapSort st.row
     ({ st with row := r }, showRow r)
   | ["hget"] => (st, showRow st.row)
-  | _ => (st, "bad-op")
+  | _ =>
+    match handlers.findSome? (fun h => h toks) with
+    | some out => (st, out)
+    | none => (st, "bad-op")
 
 partial def loop (h : IO.FS.Stream) (out : IO.FS.Stream) (st : St) : IO Unit := do
   let line ← h.getLine
